@@ -302,6 +302,7 @@ impl<const N: usize> Subscriptions<N> {
     {
         let (sub, buf, next_max_seen_attr_change_id) = self.with(buffers, |state, buffers| {
             let (sub, buf) = state.add::<B>(
+                now,
                 fabric_idx,
                 peer_node_id,
                 min_int_secs,
@@ -783,6 +784,7 @@ impl<const N: usize> SubscriptionsInner<N> {
     #[allow(clippy::too_many_arguments)]
     fn add<'a, B>(
         &mut self,
+        now: Instant,
         fab_idx: NonZeroU8,
         peer_node_id: u64,
         min_int_secs: u16,
@@ -815,6 +817,7 @@ impl<const N: usize> SubscriptionsInner<N> {
             min_int_secs,
             max_int_secs,
             reported_at: Instant::MAX,
+            created_at: now,
             retry_at: Instant::MIN,
             fail_count: 0,
             max_seen_attr_change_id,
@@ -1018,6 +1021,10 @@ pub struct Subscription {
     /// The timestamp of the last SUCCESSFUL report sent to this subscription. Used to decide when the next report is due based on the min/max intervals — and, crucially, when to give up: `is_expired` measures `max_int` from here, so a run of *failed* reports (which do NOT advance it) eventually expires the subscription rather than retrying forever.
     /// Set to `Instant::MAX` when the subscription is created to indicate that no report has been sent yet, so the first report is due immediately. After the first successful report, it is updated to the actual timestamp of that report.
     reported_at: Instant,
+    /// When the subscription entered the table (accepted, or resumed after a reboot).
+    /// Stands in for the last success while no report has succeeded yet, so that a
+    /// resumed subscription whose reports never get through still expires.
+    created_at: Instant,
     /// Earliest instant at which a report may be attempted again after a *failed*
     /// send (see [`ReportContext::set_keep_retry`]). `Instant::MIN` means no retry
     /// is pending (normal operation). Gates the report-timing helpers so a peer we
@@ -1041,7 +1048,14 @@ impl Subscription {
 
     /// Return `true` if the subscription is expired and should be removed, or `false` if it is still active.
     pub fn is_expired(&self, now: Instant) -> bool {
-        self.reported_at
+        let last_success = if self.reported_at == Instant::MAX {
+            // Not primed yet (resumed after a reboot): measure from the resumption.
+            self.created_at
+        } else {
+            self.reported_at
+        };
+
+        last_success
             .checked_add(embassy_time::Duration::from_secs(self.max_int_secs as _))
             .map(|expiry| expiry <= now)
             .unwrap_or(false)
@@ -1074,6 +1088,12 @@ impl Subscription {
         event_numbers_watermark: EventNumber,
     ) -> bool {
         if !self.is_report_allowed(now) {
+            return false;
+        }
+
+        // Expired in the meantime (the reporter may have been held up by another
+        // subscriber for a long time): leave it for the expiry sweep, do not report.
+        if self.is_expired(now) {
             return false;
         }
 
